@@ -1,6 +1,6 @@
 (* C19 — Multi-objective ranking is Pareto-consistent and MOASHA follows it.
    Only statements; every proof is [exact <lemma of proofs/ParetoProofs.v>]. *)
-From Verif Require Import model.Base model.Pareto proofs.ParetoProofs proofs.ParetoRankProofs.
+From Verif Require Import model.Base model.Pareto proofs.EpsNetProofs proofs.ParetoProofs proofs.ParetoRankProofs.
 From Coq Require Import Permutation.
 
 (* The Pareto filter marks exactly the points no other point dominates:
@@ -64,6 +64,52 @@ Proof.
   split; [reflexivity | exact (nd_sort_layering eps Heps X d Hd)].
 Qed.
 Print Assumptions c19_sort_layers.
+
+(* compute_epsilon_net, the code's own within-layer order: whatever the float norms and
+   np.random make it choose (seed item and every argmax are oracles bound only by numpy's
+   contract that argmin/argmax/choice over a non-empty array return a valid position),
+   the greedy remove-from-the-set loop visits every item exactly once, and the returned
+   ranks are the inverse of that order, so they are a permutation of 0..n-1 too. *)
+Theorem c19_epsilon_net_is_permutation :
+  forall (seed : nat) (choose : list nat -> list nat -> nat) (n : nat),
+    (forall order rem, rem <> [] -> In (choose order rem) rem) -> (seed < n)%nat ->
+    Permutation (epsilon_net_order seed choose n) (seq 0 n) /\
+    Permutation (compute_epsilon_net seed choose n) (seq 0 n) /\
+    forall r, (r < n)%nat ->
+      nth (nth r (epsilon_net_order seed choose n) O) (compute_epsilon_net seed choose n) O = r.
+Proof.
+  intros seed choose n Hc Hs.
+  split; [exact (epsilon_net_order_perm seed choose n Hc Hs)|].
+  split; [exact (compute_epsilon_net_perm seed choose n Hc Hs)|].
+  intros r Hr. exact (compute_epsilon_net_inverts seed choose n r Hc Hs Hr).
+Qed.
+Print Assumptions c19_epsilon_net_is_permutation.
+
+(* Hence the hypothesis of c19_sort_layers holds for the code's own layer order
+   pareto_front[compute_epsilon_net(X[pareto_front], dim)]: the sort is a permutation laid
+   out Pareto layer by layer with no assumption left but the oracle contract. *)
+Theorem c19_sort_layers_with_epsilon_net :
+  forall (seedf : list nat -> nat) (choosef : list nat -> list nat -> list nat -> nat),
+    (forall front, front <> [] -> (seedf front < length front)%nat) ->
+    (forall front order rem, rem <> [] -> In (choosef front order rem) rem) ->
+  forall (X : list vec) (d : nat), Forall (fun x => length x = d) X ->
+    Permutation (nondominated_sort_flat (eps_layer seedf choosef) X) (seq 0 (length X)) /\
+    exists layers, nondominated_sort_flat (eps_layer seedf choosef) X = concat layers /\
+                   pareto_layering X (seq 0 (length X)) layers.
+Proof.
+  intros seedf choosef Hs Hc.
+  exact (c19_sort_layers (eps_layer seedf choosef) (eps_layer_perm seedf choosef Hs Hc)).
+Qed.
+Print Assumptions c19_sort_layers_with_epsilon_net.
+
+(* non-vacuity: a recorded greedy order 2,0,3,1 over four items is replayed by the model
+   and its ranks are the inverse permutation *)
+Example c19_epsilon_net_example :
+  epsilon_net_order 2 (choose_replay [2; 0; 3; 1]%nat) 4 = [2; 0; 3; 1]%nat /\
+  compute_epsilon_net 2 (choose_replay [2; 0; 3; 1]%nat) 4 = [1; 3; 0; 2]%nat /\
+  eps_layer (fun _ => 2%nat) (fun _ => choose_replay [2; 0; 3; 1]%nat) [10; 11; 12; 13]%nat
+    = [11; 13; 10; 12]%nat.
+Proof. vm_compute. repeat split. Qed.
 
 (* Consequence: nothing ranked later dominates anything ranked earlier. *)
 Theorem c19_sort_no_inversion :
